@@ -700,11 +700,22 @@ func r104(c *Ctx, rule string) {
 	for _, cs := range callsTo(mj, c.method("LoadBalancer", "Targets")) {
 		if isLoadOfField(cs.common().Args[0], rolloutF) {
 			if _, nn := nilKnowledge(cs.instr, matchFieldLoad(rolloutF)); nn {
-				okM = true
+				// ... and under nothing else: whenever the slot is set its targets are saved (with or without a split)
+				extra := 0
+				for _, ce := range dominatingConds(cs.instr.Block()) {
+					if cm, isCmp := ce.asCmp(); isCmp && ((isLoadOfField(cm.x, rolloutF) && isNilConst(cm.y)) || (isLoadOfField(cm.y, rolloutF) && isNilConst(cm.x))) {
+						continue
+					}
+					if _, isPhi := ce.cond.(*ssa.Phi); isPhi {
+						continue
+					}
+					extra++
+				}
+				okM = extra == 0
 			}
 		}
 	}
-	c.ob(rule, "MarshalJSON/rollout-targets-only-when-slot-set", mj.Pos(), okM, true, "")
+	c.ob(rule, "MarshalJSON/rollout-targets-exactly-when-slot-set", mj.Pos(), okM, true, "the rollout targets are saved whenever (and only when) the rollout slot is set: deployed rollout targets are in force before a split is set and after it is stopped")
 }
 
 // persistedFields: every field of a JSON-persisted struct is exported and has a json tag other than "-",
